@@ -611,6 +611,29 @@ def multirec_family(n, seed):
                   {"head": atom("r", "X"), "body": [lit(atom("r", "Y")), lit(atom("f", "Y", "X"))]}]
             extra = []
             qs = rng.sample([atom("r", "W"), atom("r", "c2"), atom("r", "c3")], rng.randint(1, 3))
+        if rng.random() < 0.35:
+            # left-recursive reachability over certain and probabilistic edges: a certain answer can arrive on a detected cycle
+            p = progs.empty_program(consts)
+            pairs = [(a, b) for a in consts for b in consts if a != b]
+            rng.shuffle(pairs)
+            for a, b in pairs[:rng.randint(3, 5)]:
+                if rng.random() < 0.5:
+                    p["facts"].append({"p": [rng.randint(3, 9), 10], "atom": atom("e", a, b)})
+                else:
+                    p["rules"].append({"head": atom("e", a, b), "body": []})
+            rec = {"head": atom("t", "X", "Y"), "body": [lit(atom("t", "X", "Z")), lit(atom("e", "Z", "Y"))]}
+            if rng.random() < 0.3:
+                rec = {"head": atom("t", "X", "Y"), "body": [lit(atom("t", "Z", "Y")), lit(atom("e", "X", "Z"))]}
+            if rng.random() < 0.25:
+                rec["body"].reverse()
+            base = {"head": atom("t", "X", "Y"), "body": [lit(atom("e", "X", "Y"))]}
+            p["rules"] += [rec, base] if rng.random() < 0.6 else [base, rec]
+            p["queries"] = rng.sample([atom("t", "c1", "W"), atom("t", "c1", "c3"), atom("t", "V", "W"), atom("t", "W", "c2")], rng.randint(1, 3))
+            c = progs.canon(p)
+            if c not in seen:
+                seen.add(c)
+                out.append(p)
+            continue
         order = list(rng.choice(list(itertools.permutations(range(3)))))
         p["rules"] += [cl[i] for i in order] + extra
         p["queries"] = qs
